@@ -81,6 +81,7 @@ type caseT struct {
 	TSAListed      bool
 	VT             string
 	Token          string
+	Level          int // -1: default alternation (all-log / strict); else index into the 24 enforcement maps
 }
 
 func main() {
@@ -143,7 +144,12 @@ func main() {
 								if fs[1] != "notary.x509" && tk != "absent" && tk != "good" && k%5 != 0 {
 									continue // countersignatures are irrelevant for signing-authority signatures; thinned
 								}
-								cases = append(cases, caseT{fs[0], fs[1], ch, so, ex, tl, vt, tk})
+								cases = append(cases, caseT{fs[0], fs[1], ch, so, ex, tl, vt, tk, -1})
+								if r.Thorough() {
+									for rep := 0; rep < 3; rep++ {
+										cases = append(cases, caseT{fs[0], fs[1], ch, so, ex, tl, vt, tk, (k*5 + rep*7) % 24})
+									}
+								}
 							}
 						}
 					}
@@ -274,10 +280,13 @@ func main() {
 			ts.Put("tsa:t", tsaInTSAStore)
 		}
 		L := lib.LevelMap{Auth: "log", TS: "log", Exp: "log", Rev: "log"}
-		strict := ci%3 == 0
-		if strict {
+		if ci%3 == 0 {
 			L = lib.LevelMap{Auth: "enforce", TS: "enforce", Exp: "enforce", Rev: "enforce"}
 		}
+		if c.Level >= 0 {
+			L = lib.AllLevelMaps()[c.Level]
+		}
+		strict := !(L.Auth == "log" && L.TS == "log" && L.Exp == "log") // evaluation may stop early: missing results are not judged
 		sv := L.SV(ci)
 		sv.VerifyTimestamp = trustpolicy.TimestampOption(c.VT)
 		trv := &tsRev{status: tsRevStatus}
@@ -286,7 +295,7 @@ func main() {
 			panic(err)
 		}
 		out, verr := v.Verify(ctx, desc, sig, notation.VerifierVerifyOptions{ArtifactReference: "r.io/a@" + desc.Digest.String(), SignatureMediaType: c.Format})
-		id := fmt.Sprintf("%s|%s|%s|sign=%v|expiry=%s|tsa-store=%v|vt=%q|token=%s", c.Format, c.Scheme, ck.name, c.SignOff, c.Expiry, c.TSAListed, c.VT, c.Token)
+		id := fmt.Sprintf("%s|%s|%s|sign=%v|expiry=%s|tsa-store=%v|vt=%q|token=%s|%s", c.Format, c.Scheme, ck.name, c.SignOff, c.Expiry, c.TSAListed, c.VT, c.Token, L)
 		key := id
 		if ck.name == "all-valid-now" && c.Expiry == "none" && !c.TSAListed && c.Token == "absent" {
 			key = ""
@@ -359,7 +368,7 @@ func main() {
 			r.Sample("model pass, library fail", wit)
 		}
 		r.Sample(fmt.Sprintf("timestamp pass=%v", pass), id)
-		if strict && verr == nil && (!pass || (res[trustpolicy.TypeExpiry] != nil && res[trustpolicy.TypeExpiry].Error != nil)) {
+		if verr == nil && ((!pass && L.TS == "enforce") || (L.Exp == "enforce" && res[trustpolicy.TypeExpiry] != nil && res[trustpolicy.TypeExpiry].Error != nil)) {
 			r.Violation(sigm("strict-accepts-failure"), id+": strict verification succeeded although expiry/authenticTimestamp failed", wit)
 		}
 	}, r.PanicViolation("verifier.Verify"))
